@@ -241,7 +241,7 @@ fn leak(s: &str) -> &'static str {
     WINDOW_TYPES.iter().find(|t| **t == s).copied().unwrap_or("string")
 }
 
-fn make_world(spec: &str) -> Option<Box<dyn World>> {
+pub fn make_world(spec: &str) -> Option<Box<dyn World>> {
     if let Some(fam) = spec.strip_prefix("c02-window-") {
         let fam = leak(fam);
         let (acts, _, _, _, _) = window_layout(fam);
